@@ -471,6 +471,7 @@ func runC14(c *report.Ctx) {
 	ruleChildPure(c)
 	ruleParsedKeyFixedWidth(c)
 	ruleNoAppendToKeyFields(c)
+	ruleBranchCacheComplete(c) // the signing key is the BIP-32 child of the address's own branch
 	ruleSetNetRepoints(c)
 	ruleMasterAcceptsEverySeed(c)
 }
